@@ -439,6 +439,12 @@ void profile_cfg_more(const std::string &prof, uint64_t seed, RunCfg &c, Rng &r)
     if (r.chance(0.35)) f |= ARES_FLAG_DNS0x20;
     if (r.chance(0.3)) f |= ARES_FLAG_STAYOPEN;
     if (r.chance(0.1)) f |= ARES_FLAG_USEVC;
+    {
+      // truncated answers that are accepted (ARES_FLAG_IGNTC) must still never be replayed: a truncated negative answer keeps
+      // its SOA, so that only the TC bit stands between it and the cache (own generator: other draws of existing seeds unchanged)
+      Rng tr(hash_mix(c.seed * 0x9E3779B97F4A7C15ULL + 0x7C08, 8));
+      if (tr.chance(0.35)) { f |= ARES_FLAG_IGNTC; c.knobs["tc_keeps_negative"] = 1; c.knobs["c08_igntc"] = 1; }
+    }
     c.flags = f;
     c.set_domains = 1; c.domains.clear();
     c.lookups = "b";
@@ -448,6 +454,7 @@ void profile_cfg_more(const std::string &prof, uint64_t seed, RunCfg &c, Rng &r)
     if (r.chance(0.3)) c.prof.ttl_choices = {2, 3, 5};
     c.prof.max_cname_chain = 1; c.prof.max_addrs = 3;
     c.beh_w = {86, 3, 1, 0, 1, 0, 4, 2, 1, 2, 0, 0, 0, 0, 0};
+    if (c.knobs.count("c08_igntc")) c.beh_w[B_TC] = 14;
     c.zone_w = {55, 15, 25, 5};
     c.tries = 2; c.timeout_ms = 300 + (int)r.below(500); c.maxtimeout_ms = -1;
     c.udp_max_queries = -1;
